@@ -243,6 +243,9 @@ impl<TStdlib: Stdlib, TStdIn: Input, TStdOut: Printer, TLpt1: Printer> Interpret
                         // leave the built-in's context, otherwise the program
                         // continues inside it after the error is handled
                         self.context.pop();
+                        // the error took the stacktrace with it: the call sites
+                        // that led to the built-in are still active
+                        self.stacktrace = e.stacktrace().iter().skip(1).copied().collect();
                     }
                     if !matches!(ctx.error_handler, ErrorHandler::None) {
                         // the statement is abandoned: drop what it had pushed so far
